@@ -3,6 +3,7 @@ import OpusProofs.DecSkelMs
 import OpusProofs.DecSkelMsFull
 import OpusProofs.DecSkelRanges
 import OpusProofs.DecSkelShift
+import OpusProofs.CeltIdx
 /-
   Property C01 — "Decoding is total and memory-safe for arbitrary packets and call histories".
 
@@ -445,5 +446,74 @@ example (d : Int) : OracleShift exOracle exOracle d :=
   { silk := fun _ _ => rfl, celt := fun _ _ => rfl, bit := fun _ _ _ => rfl, uint := fun _ _ _ => rfl }
 example : parseImpl false [120, 1, 2, 3] = .ok ⟨120, 1, [3], 1, 0, 4⟩ ∧
     parseImpl false [123, 65, 2, 1, 2, 3, 0, 0] = .ok ⟨123, 1, [3], 3, 2, 8⟩ ∧ (120 : Nat) / 4 = 123 / 4 := by decide
+
+/-! ## Index-safety bridge for the CELT decoder interior (first milestone: state layout, buffer shift, post-filter)
+
+  `OpusModel/CeltIdx.lean` transcribes index expressions of celt/celt_decoder.c and celt/celt.c by hand (file:line at
+  each definition) — a trusted reading, supported by the tie `celtidx` (harness/c01_celtidx.c: calls recorded inside
+  the real decoder, extents of the compiled `comb_filter` measured by NaN propagation).  Geometry constants
+  (`DECODE_BUFFER_SIZE`, `MAX_PERIOD`, `COMBFILTER_MINPERIOD`, overlap, struct size / offset, element sizes) are
+  regenerated from the tree on every run (`Gen.CeltIdxConsts`). -/
+
+open Opus.CeltIdx Opus.Gen.CeltIdxConsts in
+/-- **celt_state_layout.**  The arrays behind `struct OpusCustomDecoder` — `decode_mem[0..CC)`, `lpc`, `oldBandE`,
+    `oldLogE`, `oldLogE2`, `backgroundLogE`, at the byte offsets celt_decoder.c:1024-1028 / :1065 computes — tile the
+    allocation: each starts where the previous ends, the last ends inside `opus_custom_decoder_get_size` (:169-177;
+    exactly the struct's tail padding before its end), every element of every channel buffer lies before `lpc`, and
+    the size formula gives the values the library returned. -/
+theorem celt_state_layout (CC : Int) :
+    (memOff 0 = offMem ∧ (∀ c, memOff (c + 1) = memOff c + memLen * szSig) ∧ lpcOff CC = memOff CC ∧
+      oldBandEOff CC = lpcOff CC + CC * CELT_LPC_ORDER * szVal16 ∧ oldLogEOff CC = oldBandEOff CC + 2 * nbEBands * szGlog ∧
+      oldLogE2Off CC = oldLogEOff CC + 2 * nbEBands * szGlog ∧ backgroundOff CC = oldLogE2Off CC + 2 * nbEBands * szGlog ∧
+      stateEnd CC = backgroundOff CC + 2 * nbEBands * szGlog ∧ stateEnd CC + (szStruct - offMem - szSig) = getSize CC) ∧
+    stateEnd CC ≤ getSize CC ∧
+    (∀ c i, 0 ≤ c ∧ c < CC → 0 ≤ i ∧ i < memLen →
+      offMem ≤ memOff c + i * szSig ∧ memOff c + i * szSig + szSig ≤ lpcOff CC) ∧
+    getSize 1 = getSize1 ∧ getSize 2 = getSize2 :=
+  ⟨layout_tiles CC, stateEnd_le_getSize CC, fun _ _ hc hi => mem_elem_in_state hc hi, getSize_values⟩
+
+open Opus.CeltIdx Opus.Gen.CeltIdxConsts in
+/-- **celt_postfilter_indices_in_bounds.**  For every frame size `celt_decode_with_ec_dred` accepts
+    (`N = 120·2^LM`, `LM ≤ 3`; the skeleton passes only these: `decodeNative_oracle_args`), every post-filter state the
+    decoder can hold (`postfilter_period_old`, `postfilter_period` ∈ {0} ∪ [15, 1024), the set `VALIDATE_CELT_DECODER`
+    asserts and `celt_postfilter_period_invariant` maintains), every decoded pitch in {0} ∪ [15, 1024) (C03
+    `celtHdr_total_in_range`: [15, 1022]) and any gains / tapsets: every element either post-filter `comb_filter` call
+    (:1295-1306) reads lies in `decode_mem[c][DECODE_BUFFER_SIZE−N−MAX_PERIOD−1 .. DECODE_BUFFER_SIZE)` and every
+    element it writes in `decode_mem[c][DECODE_BUFFER_SIZE−N .. DECODE_BUFFER_SIZE)` — inside the channel's
+    `DECODE_BUFFER_SIZE+overlap` elements (the lowest read index is `2048−960−1025 = 63 ≥ 0`). -/
+theorem celt_postfilter_indices_in_bounds {N LM pOld pCur pNew : Int} (hf : LegalFrame N LM) (ho : PeriodOk pOld)
+    (hc : PeriodOk pCur) (hn : PeriodOk pNew) (k : PfCall) (hk : k ∈ pfCalls N LM pOld pCur pNew) (g0z g1z gsame : Bool) :
+    (k.read g0z g1z gsame).within memLen ∧ (k.write g0z g1z gsame).within memLen ∧
+    (k.read g0z g1z gsame).sub (DECODE_BUFFER_SIZE - N - MAX_PERIOD - 1) (DECODE_BUFFER_SIZE - 1) ∧
+    (k.write g0z g1z gsame).sub (DECODE_BUFFER_SIZE - N) (DECODE_BUFFER_SIZE - 1) := by
+  have h := pfCalls_in_bounds hf ho hc hn k hk g0z g1z gsame
+  have hN := legalFrame_cases hf
+  have hD : (2048 : Int) = DECODE_BUFFER_SIZE := rfl
+  have hM : (1024 : Int) = MAX_PERIOD := rfl
+  have hv : (120 : Int) = overlap := rfl
+  exact ⟨Ext.sub_within h.1 (by omega) (by unfold memLen; omega), Ext.sub_within h.2 (by omega) (by unfold memLen; omega), h.1, h.2⟩
+
+open Opus.CeltIdx in
+/-- Non-vacuity: a 20 ms frame with the extreme periods (old 1022, current 15, new 1022) makes two calls; with all
+    gains non-zero the second reads `decode_mem[c][184 .. 2047]` and writes `[1208 .. 2047]`; the lowest index any
+    legal combination reaches is 63 (N = 960, first call, period 1023). -/
+example : pfCalls 960 3 1022 15 1022 = [⟨1088, 1022, 15, 120, 120⟩, ⟨1208, 15, 1022, 840, 120⟩] ∧
+    (PfCall.read ⟨1208, 15, 1022, 840, 120⟩ false false false) = ⟨184, 2047⟩ ∧
+    (PfCall.write ⟨1208, 15, 1022, 840, 120⟩ false false false) = ⟨1208, 2047⟩ ∧
+    (PfCall.read ⟨1088, 1023, 15, 120, 120⟩ false false false) = ⟨63, 1207⟩ ∧
+    LegalFrame 960 3 ∧ PeriodOk 1022 ∧ PeriodOk 0 := by decide
+
+open Opus.CeltIdx Opus.Gen.CeltIdxConsts in
+/-- **celt_decode_mem_shift_in_bounds.**  `OPUS_MOVE(decode_mem[c], decode_mem[c]+N, DECODE_BUFFER_SIZE−N+overlap)`
+    (:1258-1260) reads and writes inside `decode_mem[c]`; its source ends exactly at the channel buffer's last element. -/
+theorem celt_decode_mem_shift_in_bounds {N LM : Int} (hf : LegalFrame N LM) :
+    (memMoveSrc N).within memLen ∧ (memMoveDst N).within memLen ∧ (memMoveSrc N).hi = memLen - 1 :=
+  memMove_in_bounds hf
+
+open Opus.CeltIdx in
+/-- **celt_postfilter_period_invariant.**  The period pair the frame leaves in the state (:1308-1319) is again legal. -/
+theorem celt_postfilter_period_invariant {LM pOld pCur pNew : Int} (hc : PeriodOk pCur) (hn : PeriodOk pNew) :
+    PeriodOk (pfNext LM pOld pCur pNew).1 ∧ PeriodOk (pfNext LM pOld pCur pNew).2 :=
+  pfNext_periodOk hc hn
 
 end OpusProps.C01
